@@ -1,7 +1,15 @@
 (* QueueSrcOk.v — the finite evaluation behind C20_queue_is_source, kept apart from the definitions
    it evaluates (QueueSrc.v) so that those still compile — and the diagnosis can still run them —
    when the source no longer passes. *)
-From Scrapli Require Import QueueSrc.
+From Scrapli Require Import DecideLang GeneratedSkel QueueSrc.
+From Coq Require Import String List.
+Open Scope string_scope.
 
 Lemma queue_src_ok_true : queue_src_ok = true.
+Proof. vm_compute. reflexivity. Qed.
+
+(* every test the translated code makes is one the environment above was written for (an unknown
+   equality would otherwise evaluate to false without notice) *)
+Definition queue_known : list string := "q.getDepth() == 0" :: nil.
+Lemma queue_tests_known : tests_known (flat_map (fun e => snd e) GeneratedSkel.queue_code) queue_known = true.
 Proof. vm_compute. reflexivity. Qed.
